@@ -3,13 +3,14 @@
    spectrum_jsi, efficiencies_from_counts, ...) is GENERATED from the Rust source on every run (Gen/Spectrum.v,
    Gen/Efficiencies.v); `setup` (Model/SpectrumSetup.v) is the record of the SPDC fields that code reads plus the
    untranslated kernels as oracle fields; `scale_setup a b s` multiplies power by a and deff by b. *)
-From Coq Require Import Reals Bool List.
+From Coq Require Import Reals Bool List String.
 From SpdVerif Require Import Base.Rx Model.SpectrumSetup Gen.Spectrum Gen.Efficiencies Model.Spectrum
   Spec.Normalization
   Proofs.C07_scaling Proofs.C07_envelope Proofs.C07_support Proofs.C07_defined Proofs.C07_spec Proofs.C07_examples.
 From SpdVerif Require Import Spec.CrystalTypes Gen.Crystals Proofs.Sellmeier Model.Optics Model.Fresnel Proofs.Compose_index Proofs.C07_builtin.
 From Coquelicot Require Import Coquelicot.
-From SpdVerif Require Import Model.PMParams Gen.PMIntegrand Proofs.C07_counts.
+From SpdVerif Require Import Model.PMParams Gen.PMIntegrand Proofs.C07_counts Proofs.C07_frame.
+From SpdVerif Require Import Model.FinSum Model.Hom Model.Hom2 Model.Schmidt Gen.HomSrc Gen.SchmidtSrc Proofs.C07_ratios Proofs.C07_examples2.
 Local Open Scope R_scope.
 
 (* ---------- 1. linearity in power, quadratic in deff; for ALL inputs (no side condition) *)
@@ -19,11 +20,20 @@ Theorem C07_norm_linear : forall a b ws wi s,
   jsi_singles_normalization ws wi (scale_setup a b s) = a * b ^ 2 * jsi_singles_normalization ws wi s.
 Proof. exact (fun a b ws wi s => conj (common_norm_linear a b ws wi s) (conj (jsi_normalization_linear a b ws wi s) (jsi_singles_normalization_linear a b ws wi s))). Qed.
 
+(* derived from the GENERATED read sets (Gen/Spectrum.v: reads_f = fields of `setup` the translated body of f reads, directly
+   or through translated callees): a function takes the same value on setups agreeing on its read set (Proofs/C07_frame.v),
+   the read sets of the raw functions contain neither power nor deff, scale_setup changes only these two fields *)
+Theorem C07_raw_read_sets :
+  forall l, In l (reads_pump_spectral_amplitude :: reads_invalid_frequencies :: reads_jsa_raw :: reads_jsi_singles_raw :: nil) ->
+  ~ In "power"%string l /\ ~ In "deff"%string l.
+Proof. exact raw_reads_no_power_deff. Qed.
+
 Theorem C07_raw_independent : forall a b ws wi s,
   jsa_raw ws wi (scale_setup a b s) = jsa_raw ws wi s /\
   jsi_singles_raw ws wi (scale_setup a b s) = jsi_singles_raw ws wi s /\
-  pump_spectral_amplitude ws (scale_setup a b s) = pump_spectral_amplitude ws s.
-Proof. exact (fun a b ws wi s => conj (jsa_raw_scale a b ws wi s) (conj (jsi_singles_raw_scale a b ws wi s) (pump_spectral_amplitude_scale a b ws s))). Qed.
+  pump_spectral_amplitude ws (scale_setup a b s) = pump_spectral_amplitude ws s /\
+  invalid_frequencies ws wi (scale_setup a b s) = invalid_frequencies ws wi s.
+Proof. exact raw_independent_from_reads. Qed.
 
 Theorem C07_spectra_linear : forall a b ws wi s,
   spectrum_jsi ws wi (scale_setup a b s) = a * b ^ 2 * spectrum_jsi ws wi s /\
@@ -41,23 +51,25 @@ Theorem C07_counts_linear : forall a b corr pts dw2 s sw,
   counts_singles_idler corr pts dw2 (scale_setup a b sw) = a * b ^ 2 * counts_singles_idler corr pts dw2 sw.
 Proof. exact (fun a b corr pts dw2 s sw => conj (counts_coincidences_linear a b corr pts dw2 s) (conj (counts_singles_signal_linear a b corr pts dw2 s) (counts_singles_idler_linear a b corr pts dw2 sw))). Qed.
 
-(* the rates of the model are the GENERATED rendering of src/spdc/counts.rs (Gen/PMIntegrand.v, emitted only while the Rust
-   bodies keep the shape `dw2 = dws * dwi; correction * Σ spectrum * dw2`), with the generated correction factor and the cell
-   area from the two generated division widths (Gen/Grid.v) *)
+(* the GENERATED rendering of src/spdc/counts.rs (Gen/PMIntegrand.v, emitted only while the three Rust bodies keep the shape
+   `dw2 = dws * dwi; correction * Σ spectrum * dw2`): generated correction factor x grid sum of the generated per-point
+   spectrum x cell area; the cell area is the product of the two generated division widths (Gen/Grid.v); any rate of this
+   shape is linear in the per-point spectrum.  No hypotheses. *)
 Theorem C07_counts_match_generated : forall (Q : (R -> C) -> R -> R -> C) (jsis : pm_params -> R) (S Ssw : R -> R -> pm_params) (p0 : pm_params)
-    pts xs xe nx ys ye ny s sw,
+    pts xs xe nx ys ye ny,
   let dw2 := cell_area xs xe nx ys ye ny in
-  (forall ws wi, pm_jsi Q (S ws wi) = spectrum_jsi ws wi s) ->
-  (forall ws wi, jsis (S ws wi) = spectrum_jsi_singles ws wi s) ->
-  (forall ws wi, jsis (Ssw wi ws) = spectrum_jsi_singles wi ws sw) ->
   dw2 = (xe - xs) / INR (nx - 1) * ((ye - ys) / INR (ny - 1)) /\
-  pm_counts_coincidences Q S p0 pts dw2 = counts_coincidences (pm_counts_correction p0) pts dw2 s /\
-  pm_counts_singles_signal jsis S p0 pts dw2 = counts_singles_signal (pm_counts_correction p0) pts dw2 s /\
-  pm_counts_singles_idler jsis Ssw p0 pts dw2 = counts_singles_idler (pm_counts_correction p0) pts dw2 sw.
+  pm_counts_coincidences Q S p0 pts dw2 = pm_counts_correction p0 * grid_sum (fun ws wi => pm_jsi Q (S ws wi)) pts dw2 /\
+  pm_counts_singles_signal jsis S p0 pts dw2 = pm_counts_correction p0 * grid_sum (fun ws wi => jsis (S ws wi)) pts dw2 /\
+  pm_counts_singles_idler jsis Ssw p0 pts dw2 = pm_counts_correction p0 * grid_sum (fun ws wi => jsis (Ssw wi ws)) pts dw2.
 Proof.
-  exact (fun Q jsis S Ssw p0 pts xs xe nx ys ye ny s sw H1 H2 H3 =>
-           conj (cell_area_eq xs xe nx ys ye ny) (counts_match_generated Q jsis S Ssw p0 pts xs xe nx ys ye ny s sw H1 H2 H3)).
+  exact (fun Q jsis S Ssw p0 pts xs xe nx ys ye ny =>
+           conj (cell_area_eq xs xe nx ys ye ny) (generated_counts_shape Q jsis S Ssw p0 pts (cell_area xs xe nx ys ye ny))).
 Qed.
+
+Theorem C07_rate_shape_linear : forall k corr (f g : R -> R -> R) pts dw2,
+  (forall ws wi, f ws wi = k * g ws wi) -> corr * grid_sum f pts dw2 = k * (corr * grid_sum g pts dw2).
+Proof. exact shape_linear. Qed.
 
 Theorem C07_cell_area_matters : forall corr f pts dws dwi,
   corr * grid_sum f pts 1 <> 0 -> dws <> 0 -> dws <> dwi ->
@@ -88,22 +100,44 @@ Proof.
     conj (jsi_normalized_invariant a b ws wi s so Ha Hb Hn) (jsi_singles_normalized_invariant a b ws wi s so Ha Hb)).
 Qed.
 
-Theorem C07_schmidt_invariant : forall c sv,
-  c <> 0 -> sum_list (map (fun x => x ^ 4) sv) <> 0 ->
-  schmidt_of_singular_values (map (Rmult c) sv) = schmidt_of_singular_values sv.
-Proof. exact schmidt_scale_invariant. Qed.
+(* the normalised AMPLITUDE *)
+Theorem C07_jsa_normalized_invariant : forall a b ws wi s so,
+  0 < a -> b <> 0 -> 0 <= jsi_normalization ws wi s -> 0 <= jsi_normalization (omega_s0 so) (omega_i0 so) so -> center_jsa so <> 0 ->
+  spectrum_jsa_normalized ws wi (scale_setup a b s) (center_jsa (scale_setup a b so))
+  = spectrum_jsa_normalized ws wi s (center_jsa so).
+Proof. exact jsa_normalized_invariant. Qed.
 
-Theorem C07_hom_invariant : forall c l,
-  c <> 0 ->
-  sum_list (map (fun t : (R * R) * (R * R) * (R * R) => fst (fst (fst t)) * fst (fst (fst t)) + snd (fst (fst t)) * snd (fst (fst t))) l) <> 0 ->
-  hom_rate_model (map (scale_triple c) l) = hom_rate_model l.
-Proof. exact hom_rate_scale_invariant. Qed.
+(* Schmidt number, HOM rate / visibility, two-source HOM rates: the GENERATED definitions of src/math/schmidt.rs and
+   src/spdc/hom.rs (Gen/SchmidtSrc.v, Gen/HomSrc.v; their models Model/Schmidt.v, Model/Hom.v, Model/Hom2.v are proved equal to
+   the generated ones in Proofs/C09_src.v, C10_src.v, C11_src.v), composed with the GENERATED amplitude
+   jsa_fun s = fun ws wi => spectrum_jsa ws wi s, for which jsa_fun (scale_setup a b s) = (sqrt a |b|) · jsa_fun s. *)
+Theorem C07_schmidt_invariant : forall a b s g n,
+  0 < a -> b <> 0 -> norm_nonneg_on_support s ->
+  trG2 ROps n (mag_matrix n (src_jsa_range (jsa_fun s) g)) <> 0 ->
+  schmidt_K ROps n (mag_matrix n (src_jsa_range (jsa_fun (scale_setup a b s)) g))
+  = schmidt_K ROps n (mag_matrix n (src_jsa_range (jsa_fun s) g)).
+Proof. exact schmidt_power_deff_invariant. Qed.
 
-(* two sources scaled independently (source 1 by c1, source 2 by c2) *)
-Theorem C07_hom_two_source_invariant : forall c1 c2 l n1 n2,
-  c1 <> 0 -> c2 <> 0 -> sum_list (map cnorm2 n1) <> 0 -> sum_list (map cnorm2 n2) <> 0 ->
-  hom2_rate_model (map (scale_term2 c1 c2) l) (map (cscale c1) n1) (map (cscale c2) n2) = hom2_rate_model l n1 n2.
-Proof. exact hom2_rate_scale_invariant. Qed.
+Theorem C07_hom_invariant : forall a b s g taus dt,
+  0 < a -> b <> 0 -> norm_nonneg_on_support s ->
+  jsi_norm ROps (grid_len g) (tabulate (jsa_fun s) g) <> 0 ->
+  src_setup_hom_rate_series (jsa_fun (scale_setup a b s)) g taus = src_setup_hom_rate_series (jsa_fun s) g taus /\
+  src_hom_visibility (jsa_fun (scale_setup a b s)) g dt = src_hom_visibility (jsa_fun s) g dt.
+Proof. exact generated_hom_power_deff_invariant. Qed.
+
+(* the hypothesis of the three theorems holds for every physical setup with positive indices *)
+Theorem C07_norm_nonneg_on_support : forall s,
+  physical s -> (forall ws wi, indices_pos s ws wi) -> norm_nonneg_on_support s.
+Proof. exact on_support_norm_nonneg. Qed.
+
+(* two sources whose power / deff are scaled INDEPENDENTLY *)
+Theorem C07_hom_two_source_invariant : forall a1 b1 a2 b2 s1 s2 ls1 li1 ls2 li2 n dt,
+  0 < a1 -> b1 <> 0 -> 0 < a2 -> b2 <> 0 ->
+  norm_nonneg_on_support s1 -> norm_nonneg_on_support s2 ->
+  jsi_norm ROps (n * n) (tabulate (jsa_fun s1) (axes_grid ls1 li1 n)) * jsi_norm ROps (n * n) (tabulate (jsa_fun s2) (axes_grid ls2 li2 n)) <> 0 ->
+  setup_ts_rates (jsa_fun (scale_setup a1 b1 s1)) (jsa_fun (scale_setup a2 b2 s2)) ls1 li1 ls2 li2 n dt
+  = setup_ts_rates (jsa_fun s1) (jsa_fun s2) ls1 li1 ls2 li2 n dt.
+Proof. exact two_source_power_deff_invariant. Qed.
 
 (* the generated normalisation equals the hand-pinned reference form (Spec/Normalization.v): constants 2pi, c, eps0 in the
    UCUM base, the 2/pi poling coefficient, and the structure Wp^2 (deff L)^2 ws wi/(ns ni)^2 P / sigma; unconditional *)
@@ -119,23 +153,30 @@ Theorem C07_frequency_conversion_spec : forall l f,
 Proof. exact (fun l f => conj (proj1 (conversion_spec l)) (conj (proj2 (conversion_spec l)) (width_spec l f))). Qed.
 
 (* ---------- 2. the Gaussian envelope *)
-Theorem C07_envelope_center : forall s, pump_spectral_amplitude (omega_p s) s = 1.
-Proof. exact envelope_center. Qed.
+(* stated under the generated definedness predicate of the envelope: where the Rust code would form 0/0 or x/0 (fwhm = 0,
+   fwhm = 2 lambda_p, omega_p = 0) the predicate is false (C07_envelope_undefined_cases), so nothing rests on Coq's total division *)
+Theorem C07_envelope_center : forall s, pump_spectral_amplitude_defined (omega_p s) s -> pump_spectral_amplitude (omega_p s) s = 1.
+Proof. exact envelope_center_defined. Qed.
+
+Theorem C07_envelope_undefined_cases : forall w s,
+  (fwhm s = 2 * lambda_p s -> ~ pump_spectral_amplitude_defined w s) /\ (fwhm s = 0 -> ~ pump_spectral_amplitude_defined w s).
+Proof. exact (fun w s => conj (not_defined_at_double_lambda w s) (not_defined_at_zero_bandwidth w s)). Qed.
 
 (* fwhm_span s = ω(λp − ½·fwhm) − ω(λp + ½·fwhm) with the generated wavelength→frequency conversion *)
 Theorem C07_envelope_half_max : forall s,
-  fwhm_span s <> 0 ->
+  pump_spectral_amplitude_defined (omega_p s) s ->
   pump_spectral_amplitude (omega_p s + fwhm_span s / 2) s ^ 2 = 1 / 2 /\
   pump_spectral_amplitude (omega_p s - fwhm_span s / 2) s ^ 2 = 1 / 2.
-Proof. exact envelope_half_max. Qed.
+Proof. exact envelope_half_max_defined. Qed.
 
 Theorem C07_envelope_half_max_only : forall d s,
-  fwhm_span s <> 0 -> pump_spectral_amplitude (omega_p s + d) s ^ 2 = 1 / 2 -> Rabs d = Rabs (fwhm_span s / 2).
-Proof. exact envelope_half_max_only. Qed.
+  pump_spectral_amplitude_defined (omega_p s) s -> pump_spectral_amplitude (omega_p s + d) s ^ 2 = 1 / 2 -> Rabs d = Rabs (fwhm_span s / 2).
+Proof. exact envelope_half_max_only_defined. Qed.
 
 Theorem C07_envelope_shape : forall w s,
+  pump_spectral_amplitude_defined w s ->
   pump_spectral_amplitude w s = exp (- ((w - omega_p s) / spectral_width s) ^ 2) /\ 0 < pump_spectral_amplitude w s <= 1.
-Proof. exact (fun w s => conj (envelope_gaussian w s) (envelope_range w s)). Qed.
+Proof. exact (fun w s _ => conj (envelope_gaussian w s) (envelope_range w s)). Qed.
 
 Theorem C07_span_positive : forall s, 0 < omega_p s -> 0 < fwhm s < 2 * lambda_p s -> 0 < fwhm_span s.
 Proof. exact fwhm_span_pos. Qed.
@@ -206,26 +247,44 @@ Example C07_nonvacuous_physical : physical example_setup /\ indices_pos example_
 Proof. exact example_physical. Qed.
 Example C07_nonvacuous_builtin : in_window KTP (lambda_um 1.2e15) /\ temp_ok 20 /\ unit_vec (0, 0, 1).
 Proof. exact example_builtin. Qed.
+Example C07_nonvacuous_envelope_defined : pump_spectral_amplitude_defined (omega_p example_setup) example_setup.
+Proof. exact example_defined. Qed.
+Example C07_nonvacuous_product :
+  invalid_frequencies 1.2e15 1.2e15 example_setup = false /\ threshold example_setup <= pump_spectral_amplitude (1.2e15 + 1.2e15) example_setup.
+Proof. exact example_product_hyp. Qed.
+Example C07_nonvacuous_normalized :
+  0 <= jsi_normalization 1.2e15 1.2e15 example_setup /\ center_jsa example_setup <> 0 /\ center_jsi_singles example_setup <> 0.
+Proof. exact example_norm_center. Qed.
+Example C07_nonvacuous_ratios :
+  norm_nonneg_on_support example_setup /\ jsi_norm ROps (grid_len example_grid) (tabulate (jsa_fun example_setup) example_grid) <> 0.
+Proof. exact (conj example_norm_on_support example_hom_norm). Qed.
+Example C07_nonvacuous_cell_area : 1 * grid_sum (fun _ _ => 1) ((0, 0) :: nil) 1 <> 0 /\ (1 : R) <> 0 /\ (1 : R) <> 2.
+Proof. exact example_cell_area. Qed.
 Example C07_nonvacuous_on_support : ~ off_support 1.2e15 1.2e15 example_setup.
 Proof. exact example_on_support. Qed.
 Example C07_nonvacuous_off_support : off_support 2.5e15 1e14 example_setup /\ off_support 1.3e15 1.2e15 example_setup.
 Proof. exact example_off_support. Qed.
 
 Print Assumptions C07_norm_linear.
+Print Assumptions C07_raw_read_sets.
 Print Assumptions C07_raw_independent.
 Print Assumptions C07_spectra_linear.
 Print Assumptions C07_amplitude_scales.
 Print Assumptions C07_counts_linear.
 Print Assumptions C07_counts_match_generated.
+Print Assumptions C07_rate_shape_linear.
 Print Assumptions C07_cell_area_matters.
 Print Assumptions C07_efficiencies_invariant.
 Print Assumptions C07_normalized_invariant.
+Print Assumptions C07_jsa_normalized_invariant.
 Print Assumptions C07_schmidt_invariant.
 Print Assumptions C07_hom_invariant.
 Print Assumptions C07_hom_two_source_invariant.
+Print Assumptions C07_norm_nonneg_on_support.
 Print Assumptions C07_norm_matches_spec.
 Print Assumptions C07_frequency_conversion_spec.
 Print Assumptions C07_envelope_center.
+Print Assumptions C07_envelope_undefined_cases.
 Print Assumptions C07_envelope_half_max.
 Print Assumptions C07_envelope_half_max_only.
 Print Assumptions C07_envelope_shape.
